@@ -141,7 +141,11 @@ func (c *raceC) Gen(r *rand.Rand, tier string, emit func(string)) {
 type nullObserver struct{ n int }
 
 func (o *nullObserver) WriteString(line string) (int, error) { o.n++; return len(line), nil }
-func (o *nullObserver) SetLines(lines []string)              { o.n += len(lines) }
+func (o *nullObserver) SetLines(lines []string) {
+	for _, l := range lines {
+		o.n += len(l)
+	}
+}
 func (o *nullObserver) GetUniqueID() string                  { return fmt.Sprintf("obs%p", o) }
 func (o *nullObserver) GetTailLength() int                   { return 20 }
 
@@ -157,13 +161,14 @@ func RaceWorker(args []string) {
 	app.VerifStopCtx = nil
 	app.VerifStopCtxOf = nil
 	app.VerifBackoff = func(name string, cancelled bool) time.Duration { return 5 * time.Millisecond }
-	yml := `processes:
+	yml := `log_length: 5
+processes:
   a:
     command: "echo a-out; sleep 0.03"
     availability:
       restart: always
   b:
-    command: "while :; do echo b-line; sleep 0.01; done"
+    command: "while :; do echo b-line; echo b-more; echo b-again; sleep 0.002; done"
     replicas: 2
     depends_on:
       a:
@@ -235,7 +240,18 @@ func RaceWorker(args []string) {
 					case 2:
 						guard("GetProcessInfo", func() { _, _ = r.GetProcessInfo(n) })
 					case 3:
-						guard("GetProcessLog", func() { _, _ = r.GetProcessLog(n, 5, 3) })
+						// the caller keeps reading the lines it was given while the process goes on logging
+						guard("GetProcessLog", func() {
+							lines, _ := r.GetProcessLog(n, 50, 0)
+							total := 0
+							for j := 0; j < 40; j++ {
+								for _, l := range lines {
+									total += len(l)
+								}
+								time.Sleep(100 * time.Microsecond)
+							}
+							_ = total
+						})
 					case 4:
 						guard("GetProcessLogLength", func() { _ = r.GetProcessLogLength(n) })
 					case 5:
